@@ -5,6 +5,7 @@ which uses the probe, returns exactly the parsed value).
 -/
 import SpecVerif.Wire.Types
 import SpecVerif.Lemmas.Probe
+import SpecVerif.Lemmas.Safe
 namespace SpecVerif
 open Pinned
 
@@ -55,16 +56,344 @@ theorem probe_of_i32 (b : Bytes) (t : UInt8) (hb : b ≠ []) (ht : decodeType b 
     · unfold decodeInt16 at h
       simp only [hl, ↓reduceIte, ht, hk] at h
       repeat' split at h
-      all_goals first | cases h | (simp only [Res.ok.injEq, Prod.mk.injEq] at h; exact ⟨by omega, by omega⟩)
+      all_goals (cases h)
+      all_goals exact ⟨by omega, rfl⟩
     · unfold decodeInt32 at h
       simp only [hl, ↓reduceIte, ht, hk] at h
       repeat' split at h
-      all_goals first | cases h | (simp only [Res.ok.injEq, Prod.mk.injEq] at h; exact ⟨by omega, by omega⟩)
+      all_goals (cases h)
+      all_goals exact ⟨by omega, rfl⟩
     · unfold decodeInt64 at h
       simp only [hl, ↓reduceIte, ht, hk] at h
       repeat' split at h
-      all_goals first | cases h | (simp only [Res.ok.injEq, Prod.mk.injEq] at h; exact ⟨by omega, by omega⟩)
+      all_goals (cases h)
+      all_goals exact ⟨by omega, rfl⟩
   rw [key.2]
   exact probe_of_varint b t hb ht (by rcases hk with h | h <;> simp [h]) _ key.1 (revSize_of_i32 _ key.1)
+
+theorem probe_of_i64 (b : Bytes) (hb : b ≠ []) (ht : decodeType b = (tInt64, 1)) (sz : Nat) (v : Int)
+    (h : decodeInt64 b = .ok (v, sz)) : decodeTypeSize b = .ok (tInt64, sz) := by
+  have hl := len_ne_zero hb
+  have h1 : ¬ (tInt64 = tInt16 ∨ tInt64 = tInt32) := by decide
+  have key : 0 < (revI64 (dropLastN 1 b)).2 ∧ sz = 1 + (revI64 (dropLastN 1 b)).2.toNat := by
+    unfold decodeInt64 at h
+    simp only [hl, ↓reduceIte, ht, h1] at h
+    repeat' split at h
+    all_goals (cases h)
+    all_goals exact ⟨by omega, rfl⟩
+  rw [key.2]
+  exact probe_of_varint b tInt64 hb ht (by simp) _ key.1 (revSize_of_i64 _ key.1)
+
+theorem probe_of_u32 (b : Bytes) (t : UInt8) (hb : b ≠ []) (ht : decodeType b = (t, 1))
+    (hk : t = tUint16 ∨ t = tUint32) (sz : Nat)
+    (h : (∃ v, decodeUint16 b = .ok (v, sz)) ∨ (∃ v, decodeUint32 b = .ok (v, sz))) :
+    decodeTypeSize b = .ok (t, sz) := by
+  have hl := len_ne_zero hb
+  have key : 0 < (revU32 (dropLastN 1 b)).2 ∧ sz = 1 + (revU32 (dropLastN 1 b)).2.toNat := by
+    rcases h with ⟨v, h⟩ | ⟨v, h⟩
+    · unfold decodeUint16 at h
+      simp only [hl, ↓reduceIte, ht, hk] at h
+      repeat' split at h
+      all_goals (cases h)
+      all_goals exact ⟨by omega, rfl⟩
+    · unfold decodeUint32 at h
+      simp only [hl, ↓reduceIte, ht, hk] at h
+      repeat' split at h
+      all_goals (cases h)
+      all_goals exact ⟨by omega, rfl⟩
+  rw [key.2]
+  exact probe_of_varint b t hb ht (by rcases hk with h | h <;> simp [h]) _ key.1 (revSize_of_u32 _ key.1)
+
+theorem probe_of_u64 (b : Bytes) (hb : b ≠ []) (ht : decodeType b = (tUint64, 1)) (sz : Nat) (v : Nat)
+    (h : decodeUint64 b = .ok (v, sz)) : decodeTypeSize b = .ok (tUint64, sz) := by
+  have hl := len_ne_zero hb
+  have h1 : ¬ (tUint64 = tUint16 ∨ tUint64 = tUint32) := by decide
+  have key : 0 < (revU64 (dropLastN 1 b)).2 ∧ sz = 1 + (revU64 (dropLastN 1 b)).2.toNat := by
+    unfold decodeUint64 at h
+    simp only [hl, ↓reduceIte, ht, h1] at h
+    repeat' split at h
+    all_goals (cases h)
+    all_goals exact ⟨by omega, rfl⟩
+  rw [key.2]
+  exact probe_of_varint b tUint64 hb ht (by simp) _ key.1 (revSize_of_u64 _ key.1)
+
+theorem probe_of_bool (b : Bytes) (t : UInt8) (hb : b ≠ []) (ht : decodeType b = (t, 1))
+    (hk : t = tTrue ∨ t = tFalse) : decodeTypeSize b = .ok (t, 1) := by
+  have hl := len_ne_zero hb
+  unfold decodeTypeSize
+  simp [hl, ht, hk]
+
+theorem probe_of_byte (b : Bytes) (hb : b ≠ []) (ht : decodeType b = (tByte, 1)) (x : UInt8) (sz : Nat)
+    (h : decodeByte b = .ok (x, sz)) : decodeTypeSize b = .ok (tByte, sz) := by
+  have hl := len_ne_zero hb
+  unfold decodeByte at h
+  simp only [hl, ↓reduceIte, ht, ne_eq, not_true_eq_false] at h
+  split at h
+  · cases h
+  · cases h
+    rename_i h2
+    unfold decodeTypeSize
+    have h0 : ¬ (tByte = tTrue ∨ tByte = tFalse) := by decide
+    have h3 : ¬ (b.length - 1 = 0) := by omega
+    simp [hl, ht, h0, h3]
+
+theorem probe_of_bin (k : Nat) (code : UInt8) (b : Bytes) (hb : b ≠ []) (ht : decodeType b = (code, 1))
+    (hk : (code = tBin64 ∧ k = 8) ∨ (code = tBin128 ∧ k = 16) ∨ (code = tBin256 ∧ k = 32))
+    (v : Bytes) (sz : Nat) (h : decodeBin k code b = .ok (v, sz)) : decodeTypeSize b = .ok (code, sz) := by
+  have hl := len_ne_zero hb
+  unfold decodeBin at h
+  simp only [hl, ↓reduceIte, ht, ne_eq, not_true_eq_false] at h
+  split at h
+  · cases h
+  · cases h
+    rename_i h2
+    unfold decodeTypeSize
+    rcases hk with ⟨hc, hk⟩ | ⟨hc, hk⟩ | ⟨hc, hk⟩ <;> subst hc <;> subst hk
+    · have h0 : ¬ (tBin64 = tTrue ∨ tBin64 = tFalse) := by decide
+      have h1 : ¬ (tBin64 = tInt16 ∨ tBin64 = tInt32 ∨ tBin64 = tInt64 ∨ tBin64 = tUint16 ∨ tBin64 = tUint32 ∨ tBin64 = tUint64) := by decide
+      have h3 : ¬ (b.length - 1 < 8) := by omega
+      simp (config := { decide := true }) [hl, ht, h0, h1, h3]
+    · have h0 : ¬ (tBin128 = tTrue ∨ tBin128 = tFalse) := by decide
+      have h1 : ¬ (tBin128 = tInt16 ∨ tBin128 = tInt32 ∨ tBin128 = tInt64 ∨ tBin128 = tUint16 ∨ tBin128 = tUint32 ∨ tBin128 = tUint64) := by decide
+      have h3 : ¬ (b.length - 1 < 16) := by omega
+      simp (config := { decide := true }) [hl, ht, h0, h1, h3]
+    · have h0 : ¬ (tBin256 = tTrue ∨ tBin256 = tFalse) := by decide
+      have h1 : ¬ (tBin256 = tInt16 ∨ tBin256 = tInt32 ∨ tBin256 = tInt64 ∨ tBin256 = tUint16 ∨ tBin256 = tUint32 ∨ tBin256 = tUint64) := by decide
+      have h3 : ¬ (b.length - 1 < 32) := by omega
+      simp (config := { decide := true }) [hl, ht, h0, h1, h3]
+
+theorem probe_of_float (F : FloatOps) (b : Bytes) (t : UInt8) (hb : b ≠ []) (ht : decodeType b = (t, 1))
+    (hk : t = tFloat32 ∨ t = tFloat64) (sz : Nat)
+    (h : (t = tFloat32 ∧ ∃ v, decodeFloat32 F b = .ok (v, sz)) ∨ (t = tFloat64 ∧ ∃ v, decodeFloat64 F b = .ok (v, sz))) :
+    decodeTypeSize b = .ok (t, sz) := by
+  have hl := len_ne_zero hb
+  have key : ∃ v, decodeFloat64' F b = some (v, sz) := by
+    rcases h with ⟨_, v, h⟩ | ⟨_, v, h⟩
+    · unfold decodeFloat32 at h
+      simp only [hl, ↓reduceIte] at h
+      split at h
+      · cases h
+      · rename_i v' n' he
+        repeat' split at h
+        all_goals (cases h)
+        all_goals exact ⟨_, he⟩
+    · unfold decodeFloat64 at h
+      simp only [hl, ↓reduceIte] at h
+      split at h
+      · cases h
+      · rename_i v' n' he
+        cases h
+        exact ⟨_, he⟩
+  obtain ⟨v, hv⟩ := key
+  unfold decodeFloat64' at hv
+  simp only [ht] at hv
+  unfold decodeTypeSize
+  rcases hk with hk | hk <;> subst hk
+  · simp only [↓reduceIte] at hv
+    split at hv
+    · cases hv
+    · cases hv
+      have h3 : ¬ (b.length - 1 < 4) := by omega
+      simp (config := { decide := true }) [hl, ht, h3]
+  · have hne : ¬ (tFloat64 = tFloat32) := by decide
+    simp only [hne, ↓reduceIte] at hv
+    split at hv
+    · cases hv
+    · cases hv
+      have h3 : ¬ (b.length - 1 < 8) := by omega
+      simp (config := { decide := true }) [hl, ht, h3]
+
+theorem probe_of_bytes (b : Bytes) (hb : b ≠ []) (ht : decodeType b = (tBytes, 1)) (v : Bytes) (sz : Nat)
+    (h : decodeBytes b = .ok (v, sz)) : decodeTypeSize b = .ok (tBytes, sz) := by
+  have hl := len_ne_zero hb
+  unfold decodeBytes at h
+  simp only [hl, ↓reduceIte, ht, ne_eq, not_true_eq_false] at h
+  repeat' split at h
+  all_goals (cases h)
+  rename_i hm he
+  unfold decodeTypeSize
+  have hpos : 0 < b.length := by omega
+  have hbd := decodeSize_bound (List.take (b.length - 1) b)
+  simp only [List.length_take] at hbd
+  have h3 : ¬ (b.length < 1 + (decodeSize (List.take (b.length - 1) b)).2.toNat + (decodeSize (List.take (b.length - 1) b)).1) := by
+    generalize (decodeSize (List.take (b.length - 1) b)).2 = mi at *
+    generalize (decodeSize (List.take (b.length - 1) b)).1 = dd at *
+    omega
+  simp (config := { decide := true }) [hl, ht, hm, h3]
+
+theorem probe_of_string (b : Bytes) (hb : b ≠ []) (ht : decodeType b = (tString, 1)) (v : Bytes) (sz : Nat)
+    (h : decodeString b = .ok (v, sz)) : decodeTypeSize b = .ok (tString, sz) := by
+  have hl := len_ne_zero hb
+  unfold decodeString at h
+  simp only [hl, ↓reduceIte, ht, ne_eq, not_true_eq_false] at h
+  repeat' split at h
+  all_goals (cases h)
+  rename_i hm h1 he
+  unfold decodeTypeSize
+  have h3 : ¬ (b.length < 1 + (decodeSize (List.take (b.length - 1) b)).2.toNat + (decodeSize (List.take (b.length - 1) b)).1 + 1) := by
+    omega
+  simp (config := { decide := true }) [hl, ht, hm, h3]
+  omega
+
+theorem probe_of_struct (b : Bytes) (hb : b ≠ []) (ht : decodeType b = (tStruct, 1)) (d : Nat) (sz : Nat)
+    (h : decodeStruct b = .ok (d, sz)) : decodeTypeSize b = .ok (tStruct, sz) := by
+  have hl := len_ne_zero hb
+  unfold decodeStruct at h
+  simp only [hl, ↓reduceIte, ht, ne_eq, not_true_eq_false] at h
+  repeat' split at h
+  all_goals (cases h)
+  rename_i hm he
+  unfold decodeTypeSize
+  simp (config := { decide := true }) [hl, ht, hm, he]
+
+theorem probe_of_table (small big : UInt8) (esS esB : Nat) (b : Bytes) (c : UInt8) (hb : b ≠ [])
+    (ht : decodeType b = (c, 1))
+    (hk : (small = tList ∧ big = tBigList) ∨ (small = tMessage ∧ big = tBigMessage))
+    (hc : c = small ∨ c = big) (t : Table) (sz : Nat)
+    (h : decodeTable small big esS esB b = .ok (t, sz)) : decodeTypeSize b = .ok (c, sz) := by
+  have hl := len_ne_zero hb
+  have hcc : c = tList ∨ c = tBigList ∨ c = tMessage ∨ c = tBigMessage := by
+    rcases hk with ⟨h1, h2⟩ | ⟨h1, h2⟩ <;> rcases hc with h | h <;> simp [h, h1, h2]
+  unfold decodeTable at h
+  have hnot : ¬ (c ≠ small ∧ c ≠ big) := by
+    rcases hc with h | h <;> simp [h]
+  simp only [hl, ↓reduceIte, ht, hnot] at h
+  repeat' split at h
+  all_goals (cases h)
+  all_goals (
+    rename_i hm1 hm2 he2 hbig hmod hdata
+    have hb1 := decodeSize_bound (List.take (b.length - 1) b)
+    have hb2 := decodeSize_bound (List.take (b.length - 1 - (decodeSize (List.take (b.length - 1) b)).2.toNat) b)
+    simp only [List.length_take] at hb1 hb2
+    unfold decodeTypeSize
+    have e : List.take ((List.take (b.length - 1) b).length - (decodeSize (List.take (b.length - 1) b)).2.toNat) (List.take (b.length - 1) b)
+        = List.take (b.length - 1 - (decodeSize (List.take (b.length - 1) b)).2.toNat) b := by
+      rw [List.take_take, List.length_take]; congr 1; omega
+    have hbool : ¬ (c = tTrue ∨ c = tFalse) := by
+      rcases hcc with h | h | h | h <;> subst h <;> decide
+    have hbyte : ¬ c = tByte := by rcases hcc with h | h | h | h <;> subst h <;> decide
+    have hint : ¬ (c = tInt16 ∨ c = tInt32 ∨ c = tInt64 ∨ c = tUint16 ∨ c = tUint32 ∨ c = tUint64) := by
+      rcases hcc with h | h | h | h <;> subst h <;> decide
+    have hf32 : ¬ c = tFloat32 := by rcases hcc with h | h | h | h <;> subst h <;> decide
+    have hf64 : ¬ c = tFloat64 := by rcases hcc with h | h | h | h <;> subst h <;> decide
+    have hb64 : ¬ c = tBin64 := by rcases hcc with h | h | h | h <;> subst h <;> decide
+    have hb128 : ¬ c = tBin128 := by rcases hcc with h | h | h | h <;> subst h <;> decide
+    have hb256 : ¬ c = tBin256 := by rcases hcc with h | h | h | h <;> subst h <;> decide
+    have hby : ¬ c = tBytes := by rcases hcc with h | h | h | h <;> subst h <;> decide
+    have hst : ¬ c = tString := by rcases hcc with h | h | h | h <;> subst h <;> decide
+    simp only [hl, ↓reduceIte, ht, hbool, hbyte, hint, hf32, hf64, hb64, hb128, hb256, hby, hst, hcc, hm1, e, hm2]
+    generalize (decodeSize (List.take (b.length - 1 - (decodeSize (List.take (b.length - 1) b)).2.toNat) b)).2 = m2 at *
+    generalize (decodeSize (List.take (b.length - 1 - (decodeSize (List.take (b.length - 1) b)).2.toNat) b)).1 = d2 at *
+    generalize (decodeSize (List.take (b.length - 1) b)).2 = m1 at *
+    generalize (decodeSize (List.take (b.length - 1) b)).1 = ts at *
+    have h3 : ¬ (b.length < 1 + m1.toNat + ts + m2.toNat + d2) := by omega
+    simp only [h3, ↓reduceIte]
+    congr 2
+    omega)
+
+theorem guardSize_ok (len : Nat) (r : Res Nat) (n : Nat) (h : guardSize len r = .ok n) : r = .ok n := by
+  unfold guardSize at h
+  split at h
+  · split at h
+    · cases h
+    · cases h; rfl
+  · rename_i hne
+    cases r with
+    | ok x => exact absurd rfl (hne x)
+    | err e k => cases h
+    | panic => cases h
+
+theorem bind_snd_ok {α : Type} (r : Res (α × Nat)) (n : Nat)
+    (h : (r.bind fun x => Res.ok x.2) = .ok n) : ∃ v, r = .ok (v, n) := by
+  cases r with
+  | ok x => simp only [Res.bind] at h; cases h; exact ⟨x.1, rfl⟩
+  | err e k => cases h
+  | panic => cases h
+
+theorem parseList_size (F : FloatOps) (fuel : Nat) (b : Bytes) (n : Nat) (h : parseList F fuel b = .ok n) :
+    ∃ t, decodeListTable b = .ok (t, n) := by
+  cases fuel with
+  | zero => simp [parseList] at h
+  | succ fuel =>
+    simp only [parseList] at h
+    split at h
+    · cases h
+    · cases h
+    · rename_i t size hd
+      split at h
+      · cases h
+      · cases h
+      · have := parseListElems_size F fuel _ size n _ _ h
+        subst this
+        exact ⟨t, hd⟩
+
+theorem parseMessage_size (F : FloatOps) (fuel : Nat) (b : Bytes) (n : Nat) (h : parseMessage F fuel b = .ok n) :
+    ∃ t, decodeMessageTable b = .ok (t, n) := by
+  cases fuel with
+  | zero => simp [parseMessage] at h
+  | succ fuel =>
+    simp only [parseMessage] at h
+    split at h
+    · cases h
+    · cases h
+    · rename_i t size hd
+      split at h
+      · cases h
+      · cases h
+      · have := parseMsgFields_size F fuel _ size n _ _ h
+        subst this
+        exact ⟨t, hd⟩
+
+/-- `r` can only succeed with the size the probe reports -/
+def Agrees (b : Bytes) (r : Res Nat) : Prop := ∀ n, r = .ok n → ∃ t, decodeTypeSize b = .ok (t, n)
+
+theorem Agrees_ite (b : Bytes) (c : Prop) [Decidable c] (x y : Res Nat)
+    (hx : c → Agrees b x) (hy : ¬ c → Agrees b y) : Agrees b (if c then x else y) := by
+  by_cases h : c
+  · simp only [h, ↓reduceIte]; exact hx h
+  · simp only [h, ↓reduceIte]; exact hy h
+
+theorem Agrees_err (b : Bytes) (e : Err) (k : Nat) : Agrees b (.err e k) := by
+  intro n h; cases h
+
+/-- the parser and the probe agree on the size of every value the parser accepts -/
+theorem parse_probe_agree (F : FloatOps) (fuel : Nat) (b : Bytes) (n : Nat)
+    (h : parseValue F fuel b = .ok n) : b ≠ [] ∧ ∃ t, decodeTypeSize b = .ok (t, n) := by
+  cases fuel with
+  | zero => simp [parseValue] at h
+  | succ fuel =>
+    simp only [parseValue] at h
+    have hr := guardSize_ok _ _ _ h
+    clear h
+    by_cases hb : b = []
+    · subst hb
+      simp (config := { decide := true }) [decodeType] at hr
+    · refine ⟨hb, ?_⟩
+      obtain ⟨t, ht, _⟩ := decodeType_ne_nil b hb
+      have ht1 : (decodeType b).1 = t := by rw [ht]
+      revert hr
+      revert n
+      show Agrees b _
+      repeat' (apply Agrees_ite <;> intro hk)
+      all_goals first
+        | exact Agrees_err _ _ _
+        | (intro n hr; rw [ht1] at hk; cases hr; rw [ht]; exact ⟨t, probe_of_bool b t hb ht hk⟩)
+        | (intro n hr; rw [ht1] at hk; subst hk; obtain ⟨v, hv⟩ := bind_snd_ok _ _ hr; exact ⟨_, probe_of_byte b hb ht v n hv⟩)
+        | (intro n hr; rw [ht1] at hk; subst hk; obtain ⟨v, hv⟩ := bind_snd_ok _ _ hr; exact ⟨_, probe_of_i32 b _ hb ht (Or.inl rfl) n (Or.inl ⟨v, hv⟩)⟩)
+        | (intro n hr; rw [ht1] at hk; subst hk; obtain ⟨v, hv⟩ := bind_snd_ok _ _ hr; exact ⟨_, probe_of_i32 b _ hb ht (Or.inr rfl) n (Or.inr (Or.inl ⟨v, hv⟩))⟩)
+        | (intro n hr; rw [ht1] at hk; subst hk; obtain ⟨v, hv⟩ := bind_snd_ok _ _ hr; exact ⟨_, probe_of_i64 b hb ht n v hv⟩)
+        | (intro n hr; rw [ht1] at hk; subst hk; obtain ⟨v, hv⟩ := bind_snd_ok _ _ hr; exact ⟨_, probe_of_u32 b _ hb ht (Or.inl rfl) n (Or.inl ⟨v, hv⟩)⟩)
+        | (intro n hr; rw [ht1] at hk; subst hk; obtain ⟨v, hv⟩ := bind_snd_ok _ _ hr; exact ⟨_, probe_of_u32 b _ hb ht (Or.inr rfl) n (Or.inr ⟨v, hv⟩)⟩)
+        | (intro n hr; rw [ht1] at hk; subst hk; obtain ⟨v, hv⟩ := bind_snd_ok _ _ hr; exact ⟨_, probe_of_u64 b hb ht n v hv⟩)
+        | (intro n hr; rw [ht1] at hk; subst hk; obtain ⟨v, hv⟩ := bind_snd_ok _ _ hr; exact ⟨_, probe_of_bin 8 _ b hb ht (Or.inl ⟨rfl, rfl⟩) v n hv⟩)
+        | (intro n hr; rw [ht1] at hk; subst hk; obtain ⟨v, hv⟩ := bind_snd_ok _ _ hr; exact ⟨_, probe_of_bin 16 _ b hb ht (Or.inr (Or.inl ⟨rfl, rfl⟩)) v n hv⟩)
+        | (intro n hr; rw [ht1] at hk; subst hk; obtain ⟨v, hv⟩ := bind_snd_ok _ _ hr; exact ⟨_, probe_of_bin 32 _ b hb ht (Or.inr (Or.inr ⟨rfl, rfl⟩)) v n hv⟩)
+        | (intro n hr; rw [ht1] at hk; subst hk; obtain ⟨v, hv⟩ := bind_snd_ok _ _ hr; exact ⟨_, probe_of_float F b _ hb ht (Or.inl rfl) n (Or.inl ⟨rfl, v, hv⟩)⟩)
+        | (intro n hr; rw [ht1] at hk; subst hk; obtain ⟨v, hv⟩ := bind_snd_ok _ _ hr; exact ⟨_, probe_of_float F b _ hb ht (Or.inr rfl) n (Or.inr ⟨rfl, v, hv⟩)⟩)
+        | (intro n hr; rw [ht1] at hk; subst hk; obtain ⟨v, hv⟩ := bind_snd_ok _ _ hr; exact ⟨_, probe_of_bytes b hb ht v n hv⟩)
+        | (intro n hr; rw [ht1] at hk; subst hk; obtain ⟨v, hv⟩ := bind_snd_ok _ _ hr; exact ⟨_, probe_of_string b hb ht v n hv⟩)
+        | (intro n hr; rw [ht1] at hk; obtain ⟨tb, htb⟩ := parseList_size F fuel b n hr; exact ⟨t, probe_of_table _ _ _ _ b t hb ht (Or.inl ⟨rfl, rfl⟩) hk tb n htb⟩)
+        | (intro n hr; rw [ht1] at hk; obtain ⟨tb, htb⟩ := parseMessage_size F fuel b n hr; exact ⟨t, probe_of_table _ _ _ _ b t hb ht (Or.inr ⟨rfl, rfl⟩) hk tb n htb⟩)
+        | (intro n hr; rw [ht1] at hk; subst hk; obtain ⟨v, hv⟩ := bind_snd_ok _ _ hr; exact ⟨_, probe_of_struct b hb ht v n hv⟩)
 
 end SpecVerif
